@@ -172,6 +172,13 @@ def check_case(prop, case, il, ml, ctx):
                     probs.append("printing the typed result differs from the text API on the printed input")
             _nontrivial(ctx, case, I.get("m", "").split("/")[-1] != I.get("p"))
             _kind(ctx, "Y:parsed")
+    elif op in ("E5", "E6"):
+        if il != ml:
+            probs.append(f"{op} block {case.split(' ')[1]}: digests differ: implementation {il} model {ml} "
+                         f"(re-run the block verbosely to find the input)")
+        ctx["stats"]["evaluations"] += max(int(I.get("n", "1")) - 1, 0)
+        _nontrivial(ctx, case, True)
+        _kind(ctx, op + ":block")
     elif op == "Z":
         if il != ml:
             probs.append(f"Z: implementation {il[:160]!r} model {ml[:160]!r}")
